@@ -309,9 +309,13 @@ class FakeSocket:
             w.probe("open-missing")
             status, text = "404 Not Found", "no such simulated resource"
         body = text if isinstance(text, bytes) else text.encode("utf-8")
-        head = ("HTTP/1.1 %s\r\nContent-Type: text/plain; charset=utf-8\r\n"
+        ctype = "text/plain"
+        if w.http_charset:
+            # (what the simulated server CLAIMS; the body is always UTF-8)
+            ctype += "; charset=" + w.http_charset
+        head = ("HTTP/1.1 %s\r\nContent-Type: %s\r\n"
                 "Content-Length: %d\r\nConnection: close\r\n\r\n"
-                % (status, len(body) + extra)).encode("latin-1")
+                % (status, ctype, len(body) + extra)).encode("latin-1")
         f = io.BytesIO(head + body)
         # the "connection": what http.client reads the response from.  It is
         # closed when the response object (or the HTTPError built around it)
@@ -398,7 +402,13 @@ class SimPkgLoader(importlib.abc.Loader):
             f = {"kind": "pkg-import-error"}
         if f is not None:
             w.fired(f)
-            raise ImportError("simulated import failure of %s" % self.name)
+            if dtmod:
+                # (a module that is not installed, as Python reports it)
+                raise ModuleNotFoundError(
+                    "simulated import failure of %s" % self.name,
+                    name=self.name)
+            raise ImportError("simulated import failure of %s" % self.name,
+                              name=self.name)
         if (w.packages.get(self.name) or {}).get("noloader"):
             # a module object without the import system's attributes (made
             # by hand by an embedding application, a lazy proxy ...)
@@ -475,6 +485,7 @@ class SimWorld:
         self.probes = {}
         self.faults = Faults()
         self.pending_http_fault = None
+        self.http_charset = "utf-8"   # charset parameter the server sends
         self.pkg_faults = {}     # package name -> fault kind (by name, not
         #                          by ordinal; set by the property module)
         self._reset_op()
@@ -531,6 +542,7 @@ class SimWorld:
         self.streams = []
         self.opened = []
         self.raised = []         # exception objects raised by simdt callbacks
+        self.foreign = []        # ... those that are NOT ValueErrors (faults)
         self.sockfiles = []      # [(url, file object of the fake socket)]
         self.sock_open_at_raise = None
         self.res_events = {}     # id(resource) -> seq of resource-create
